@@ -536,7 +536,7 @@ theorem step_get {s : State} (op : Op) {k : Nat} {w : Waiter} (hk : s.ws[k]? = s
 theorem step_new {s : State} (op : Op) {k : Nat} {w' : Waiter} (hn : s.ws[k]? = none)
     (hk : (step s op).ws[k]? = some w') : w'.fut = .pending := by
   have hlen : ∀ j x, (s.ws.set j x)[k]? = none := by
-    intro j x; simp [List.getElem?_eq_none_iff] at hn ⊢; exact hn
+    intro j x; simp at hn ⊢; exact hn
   cases op with
   | create kd m =>
     simp only [step] at hk
